@@ -77,6 +77,8 @@ impl Serialize for WKey<'_> {
         match (self.ty, self.v) {
             (KeyTy::NewtypeSpanned(name), Val::Spanned(_, _, x)) => WKey { ty: &KeyTy::NewtypeStr(name.clone()), v: x, cfg: self.cfg }.serialize(s),
             (KeyTy::NewtypeSpanned(name), x @ Val::Str(_)) => WKey { ty: &KeyTy::NewtypeStr(name.clone()), v: x, cfg: self.cfg }.serialize(s),
+            (KeyTy::SpannedKey(k), Val::Spanned(_, _, x)) => WKey { ty: k, v: x, cfg: self.cfg }.serialize(s),
+            (KeyTy::SpannedKey(k), x) => WKey { ty: k, v: x, cfg: self.cfg }.serialize(s),
             (KeyTy::SpannedStr, Val::Spanned(_, _, x)) => WKey { ty: &KeyTy::Str, v: x, cfg: self.cfg }.serialize(s),
             (KeyTy::Str, Val::Str(x)) | (KeyTy::SpannedStr, Val::Str(x)) => {
                 if self.cfg.flag(H4_COLLECT_STR) {
